@@ -447,3 +447,44 @@ package raft
 //@   modifies r.logs.has, r.logs.ent, r.logs.first, r.logs.last
 //@   ensures  wholesale: result == nil ==> forall i uint64 :: !r.logs.has[i]
 //@   ensures  error_untouched: result != nil ==> r.logs.has == old(r.logs.has) && r.logs.ent == old(r.logs.ent)
+
+// ---------------------------------------------------------------------------
+// C13: leader lease
+
+//@ spec func leaseContacted(r *Raft, n int, now time.Time, lease time.Duration) int =
+//@   count(k, n, r.configurations.latest.Servers[k].Suffrage == Voter &&
+//@     (r.configurations.latest.Servers[k].ID == r.localID ||
+//@      timesub(now, r.leaderState.replState[r.configurations.latest.Servers[k].ID].lastContact) <= lease))
+
+//@ func (r *Raft) checkLeaderLease
+//@   requires nonnil: r != nil && typeis(r.conf.v, Config) && r.leaderState.replState != nil && r.logger != nil
+//@   requires repl_covers_voters: forall k int :: 0 <= k && k < len(r.configurations.latest.Servers) &&
+//@              r.configurations.latest.Servers[k].Suffrage == Voter && r.configurations.latest.Servers[k].ID != r.localID ==>
+//@              r.leaderState.replState[r.configurations.latest.Servers[k].ID] != nil
+//@   requires lease_positive: cfg(r).LeaderLeaseTimeout >= 0
+//@   safe
+//@   ensures  decision: (r.state == Follower) == (old(r.state) == Follower ||
+//@              leaseContacted(r, len(r.configurations.latest.Servers), now, leaseTimeout) < voterCount(r.configurations.latest)/2 + 1)
+//@   ensures  lease_is_configured: leaseTimeout == cfg(r).LeaderLeaseTimeout
+//@   ensures  maxdiff_range: 0 <= result && result <= cfg(r).LeaderLeaseTimeout
+//@   ensures  term_and_log_untouched: r.currentTerm == old(r.currentTerm) && r.lastLogIndex == old(r.lastLogIndex) && r.commitIndex == old(r.commitIndex)
+//@   loop 1 invariant tally: contacted == leaseContacted(r, #i, now, leaseTimeout) && 0 <= maxDiff && maxDiff <= leaseTimeout && r.state == old(r.state)
+
+// ---------------------------------------------------------------------------
+// C14: pre-vote handler
+
+//@ spec func preVoteResp(rpc RPC) *RequestPreVoteResponse = cast(lastsent(rpc.RespChan).Response, *RequestPreVoteResponse)
+
+//@ func (r *Raft) requestPreVote
+//@   requires nonnil: r != nil && req != nil && r.trans != nil && r.logger != nil && rpc.RespChan != nil && typeis(r.conf.v, Config)
+//@   modifies sent(rpc.RespChan)
+//@   ensures  responded: sent(rpc.RespChan) == old(sent(rpc.RespChan)) + 1 && typeis(lastsent(rpc.RespChan).Response, *RequestPreVoteResponse)
+//@   ensures  no_state_change: r.currentTerm == old(r.currentTerm) && r.state == old(r.state) && r.leaderAddr == old(r.leaderAddr) &&
+//@              r.leaderID == old(r.leaderID) && r.lastContact == old(r.lastContact) && r.commitIndex == old(r.commitIndex) &&
+//@              r.lastLogIndex == old(r.lastLogIndex) && r.lastLogTerm == old(r.lastLogTerm)
+//@   ensures  refuse_while_leader_known: r.leaderAddr != "" && r.leaderAddr != decodePeerOf(content(req.Addr)) ==> !preVoteResp(rpc).Granted
+//@   ensures  stale_term_refused: req.Term < r.currentTerm ==> !preVoteResp(rpc).Granted
+//@   ensures  grant_requires_uptodate_log: preVoteResp(rpc).Granted ==>
+//@              !(lastEntryTerm(r) > req.LastLogTerm) && !(lastEntryTerm(r) == req.LastLogTerm && lastEntryIndex(r) > req.LastLogIndex)
+//@   ensures  grant_requires_voter: preVoteResp(rpc).Granted && len(r.configurations.latest.Servers) > 0 ==>
+//@              hasVoteSpec(r.configurations.latest, ServerID(content(req.ID)))
